@@ -2,10 +2,16 @@
 C07, part 1: the configuration record of `mystic/abstract_solver.py` and one function per `Set*` method.
 
 `Cfg` lists every attribute that the `Set*` methods of AbstractSolver / AbstractMapSolver (and the two overrides
-in differential_evolution.py) read or write; `apply` is a literal transcription of those methods (file + line
-numbers in the comments, pinned tree).  User objects (callables, monitors, maps, termination conditions, file
-names) are identified by natural numbers (`none` = the solver's built-in default); monitor contents are lists of
-record labels.  Numbers (`R`) only occur in the strict ranges and in the initial population.
+in differential_evolution.py) read or write, grouped the way the methods use them; `own` is a transcription of
+the method bodies (file + line numbers in the comments, pinned tree), `apply` adds the trailing
+`_update_objective()` = `Finalize()` and the ensemble solvers' "must be overwritten" stubs.
+User objects (callables, monitors, maps, termination conditions, file names) are identified by natural numbers
+(`none` = the solver's built-in default); monitor contents are lists of record labels.  Numbers (`R`) only occur
+in the strict ranges and in the initial population.
+
+Every method body has the shape "assign these attributes a value computed from the arguments and from those
+attributes" - the conditionals (argument checks that raise, `new`, `current is monitor`, ...) live inside the
+computed values, so that the footprint of a method can be read off its definition.
 
 The random source is a stream `u : Nat → R` of `random.random()` values and a position `rngPos` in it:
 `random.uniform(a, b)` is `a + (b - a) * random()` (CPython `Lib/random.py`).
@@ -46,44 +52,84 @@ inductive BndMode where
   | impose (clip : Bool)     -- `boundsconstrain(min, max, symbolic=False, clip=clip)`
   deriving DecidableEq, Repr, Inhabited
 
+/-- `_termination`, `_collapse` -/
+structure Term where
+  termination : Option Nat := none      -- `none` = AbstractSolver's default
+  collapse : Bool := false
+  deriving DecidableEq, Repr, Inhabited
+
+/-- `_energy_history` / `_solution_history` overrides (their lengths) or None -/
+structure Hist where
+  ehist : Option Nat := none
+  shist : Option Nat := none
+  deriving DecidableEq, Repr, Inhabited
+
+/-- `_useStrictRange, _useTightRange, _useClipRange, _strictMin, _strictMax, _strictbounds` -/
+structure Ranges (R : Type) where
+  useStrict : Bool := false
+  tight : Option Bool := none
+  clip : Option Bool := none
+  smin : List R := []
+  smax : List R := []
+  bnd : BndMode := .ident
+  deriving Inhabited
+
+/-- `_maxiter`, `_maxfun` -/
+structure Limits where
+  maxiter : Lim := .none
+  maxfun : Lim := .none
+  deriving DecidableEq, Repr, Inhabited
+
+/-- `_cost = (cost, raw_cost, args)` -/
+structure Cost where
+  raw : Option Nat := none              -- `_cost[1]`
+  decorated : Bool := false             -- `_cost[0] is not None`
+  deriving DecidableEq, Repr, Inhabited
+
+/-- `_saveiter`, `_state` -/
+structure Save where
+  saveiter : Option Nat := none
+  state : Option Nat := none
+  deriving DecidableEq, Repr, Inhabited
+
+/-- `_map` (`0` = python_map), `_mapconfig` -/
+structure MapC where
+  map : Nat := 0
+  mapcfg : Nat := 0
+  deriving DecidableEq, Repr, Inhabited
+
+/-- the population and the position in the random stream -/
+structure Pop (R : Type) where
+  population : List (List R) := []
+  rngPos : Nat := 0                     -- number of `random.random()` values consumed so far
+  deriving Inhabited
+
 /-- the solver attributes the `Set*` methods touch (abstract_solver.py `__init__` l.113-162,
     abstract_map_solver.py l.113-122) -/
 structure Cfg (R : Type) where
-  -- static
+  -- static (no Set* writes them)
   kind : Kind
   nDim : Nat
   dmin : List R                         -- `_defaultMin`
   dmax : List R                         -- `_defaultMax`
   best : Nat                            -- label of the record `(bestSolution, bestEnergy)` (Powell's Finalize logs it)
-  fcalls : Nat                          -- `_fcalls[0]`   (no Set* writes it)
+  fcalls : Nat                          -- `_fcalls[0]`
   -- recorded settings
   reducer : Option (Nat × Bool)         -- `_reducer`: (callable, arraylike) ; `none` = None
   penalty : Option Nat                  -- `_penalty`     (`none` = `lambda x: 0.0`)
   constraints : Option Nat              -- `_constraints` (`none` = `lambda x: x`)
-  termination : Option Nat              -- `_termination` (`none` = AbstractSolver's default)
-  collapse : Bool                       -- `_collapse`
+  term : Term
   stepmon : Mon                         -- `_stepmon`
   evalmon : Mon                         -- `_evalmon`
-  ehist : Option Nat                    -- `_energy_history`   override (its length) or None
-  shist : Option Nat                    -- `_solution_history` override (its length) or None
-  useStrict : Bool                      -- `_useStrictRange`
-  tight : Option Bool                   -- `_useTightRange`
-  clip : Option Bool                    -- `_useClipRange`
-  smin : List R                         -- `_strictMin`
-  smax : List R                         -- `_strictMax`
-  bnd : BndMode                         -- `_strictbounds`
-  maxiter : Lim                         -- `_maxiter`
-  maxfun : Lim                          -- `_maxfun`
-  costRaw : Option Nat                  -- `_cost[1]`
-  decorated : Bool                      -- `_cost[0] is not None`
+  hist : Hist
+  ranges : Ranges R
+  limits : Limits
+  cost : Cost
   live : Bool                           -- `_live`
-  saveiter : Option Nat                 -- `_saveiter`
-  state : Option Nat                    -- `_state`
-  map : Nat                             -- `_map`        (`0` = python_map)
-  mapcfg : Nat                          -- `_mapconfig`
+  save : Save
+  mapc : MapC
   sigint : Bool                         -- `_handle_sigint`
-  population : List (List R)
-  rngPos : Nat                          -- number of `random.random()` values consumed so far
+  pop : Pop R
   deriving Inhabited
 
 /-- the `Set*` methods (and the two signal-handler switches) with their arguments -/
@@ -109,131 +155,178 @@ variable {R : Type}
 /-- "the solver is a live Powell solver": the only situation in which `Finalize` does more than clearing `_live` -/
 def Cfg.pl (s : Cfg R) : Bool := decide (s.kind = .powell) && s.live
 
+/-- label of a restart file name created by `SaveSolver()` itself (`tempfile.mkstemp`) -/
+def tmpState : Nat := 499
+
+/-- `__save_state()` (abstract_solver.py l.989-1007) as reached from Powell's `Finalize`: after `_saveiter`
+    generations the solver is dumped; without a registered file name `SaveSolver` creates one and keeps it -/
+def saveDue (saveiter : Option Nat) (gens : Nat) : Bool :=
+  match saveiter with
+  | some (n + 1) => gens % (n + 1) == 0
+  | _ => false
+
 /-- `Finalize()`: abstract_solver.py l.1018-1021; PowellDirectionalSolver scipy_optimize.py l.748-756
-    (`energy_history != None` always holds: it is a list) -/
-def Cfg.finalize (s : Cfg R) : Cfg R :=
-  if s.pl = true then
-    { s with ehist := none, stepmon := { s.stepmon with recs := s.stepmon.recs ++ [s.best] }, live := false }
-  else { s with live := false }
+    (`energy_history != None` always holds: it is a list): when live, resync the energy history, log the best
+    and save the state if the save frequency matches; clear `_live`.  `pl` = "a live Powell solver". -/
+def Cfg.finalizeWith (pl : Bool) (s : Cfg R) : Cfg R :=
+  { s with hist := (if pl = true then { s.hist with ehist := none } else s.hist),
+           stepmon := (if pl = true then { s.stepmon with recs := s.stepmon.recs ++ [s.best] } else s.stepmon),
+           save := (if (pl && saveDue s.save.saveiter s.stepmon.recs.length) = true
+                    then { s.save with state := some (s.save.state.getD tmpState) } else s.save),
+           live := false }
+
+def Cfg.finalize (s : Cfg R) : Cfg R := s.finalizeWith s.pl
 
 /-- `generations`: `max(0, len(_stepmon)-1)` (l.172-174); Powell: `max(0, len(energy_history)-1)` (l.588-590) -/
-def Cfg.gens (s : Cfg R) : Nat :=
-  if s.kind = .powell then (s.ehist.getD s.stepmon.recs.length) - 1 else s.stepmon.recs.length - 1
+def gensOf (k : Kind) (stepmon : Mon) (hist : Hist) : Nat :=
+  if k = .powell then (hist.ehist.getD stepmon.recs.length) - 1 else stepmon.recs.length - 1
 
-/-- `SetGenerationMonitor(monitor, new)` l.277-301 -/
-def Cfg.setGenMon (s : Cfg R) (m : Option Mon) (new : Bool) : Cfg R :=
-  let cur : List Nat := if new = true then [] else s.stepmon.recs          -- `Null() if new else self._stepmon`
+def Cfg.gens (s : Cfg R) : Nat := gensOf s.kind s.stepmon s.hist
+
+/-- `SetGenerationMonitor(monitor, new)` l.277-298: the new `_stepmon` -/
+def newStepmon (cur : Mon) (m : Option Mon) (new : Bool) : Mon :=
+  let old : List Nat := if new = true then [] else cur.recs              -- `Null() if new else self._stepmon`
   match m with
-  | none => { s with stepmon := { id := 0, null := false, recs := cur }, ehist := none, shist := none }
+  | none => { id := 0, null := false, recs := old }                      -- `Monitor()` ; don't allow Null
   | some mon =>
-    if mon.null = true then                                                -- `Monitor()` ; don't allow Null
-      { s with stepmon := { id := 0, null := false, recs := cur }, ehist := none, shist := none }
-    else if (mon.id ≠ 0 ∧ mon.id = s.stepmon.id) then                      -- `if current is monitor: current = Null()`
-      { s with ehist := none, shist := none }
-    else { s with stepmon := { mon with recs := cur ++ mon.recs }, ehist := none, shist := none }
+    if mon.null = true then { id := 0, null := false, recs := old }
+    else if (mon.id ≠ 0 ∧ mon.id = cur.id) then cur                      -- `if current is monitor: current = Null()`
+    else { mon with recs := old ++ mon.recs }                            -- `monitor.prepend(current)`
 
 /-- `SetEvaluationMonitor(monitor, new)` l.303-325 (a `Null()` is accepted and drops the contents) -/
-def Cfg.setEvalMon (s : Cfg R) (m : Option Mon) (new : Bool) : Cfg R :=
-  let cur : List Nat := if new = true then [] else s.evalmon.recs
+def newEvalmon (cur : Mon) (m : Option Mon) (new : Bool) : Mon :=
+  let old : List Nat := if new = true then [] else cur.recs
   match m with
-  | none => { s with evalmon := nullMon }
+  | none => nullMon
   | some mon =>
-    if mon.null = true then { s with evalmon := nullMon }
-    else if (mon.id ≠ 0 ∧ mon.id = s.evalmon.id) then s
-    else { s with evalmon := { mon with recs := cur ++ mon.recs } }
+    if mon.null = true then nullMon
+    else if (mon.id ≠ 0 ∧ mon.id = cur.id) then cur
+    else { mon with recs := old ++ mon.recs }
 
 /-- `numpy.any(min > max)` -/
 def anyGt [LT R] [DecidableLT R] (mn mx : List R) : Bool :=
   (List.zipWith (fun a b => decide (b < a)) mn mx).any id
 
+/-- `SetStrictRanges`: does it raise, and where?  `1`: `clip` given with `tight=False` (l.369-370, nothing written
+    yet); `2`: `min > max` somewhere or wrong length (l.390-393, `_useTightRange/_useClipRange` already written) -/
+def rangesRaise [LT R] [DecidableLT R] (nDim : Nat) (dmin dmax : List R) (off : Bool) (min max : Option (List R))
+    (tight clip : Option Bool) : Nat :=
+  if (clip.isSome && tight == some false) = true then 1
+  else if off = true then 0
+  else if anyGt (min.getD dmin) (max.getD dmax) = true then 2
+  else if (min.getD dmin).length ≠ nDim then 2
+  else 0
+
 /-- `SetStrictRanges(min, max, tight=, clip=)` l.327-398; `off` = `min is False or max is False` -/
-def Cfg.setStrictRanges [LT R] [DecidableLT R] (s : Cfg R) (off : Bool) (min max : Option (List R))
-    (tight clip : Option Bool) : Cfg R × Bool :=
-  if (clip.isSome && tight == some false) = true then (s, true)     -- ValueError, nothing written yet (l.369-370)
-  else
-    let mode : BndMode :=
-      match clip with
-      | none => if tight == some true then .symbolic else .ident       -- args = {symbolic: True} if tight else {}
-      | some c => .impose c                                            -- args = {symbolic: False, clip: clip}
-    let s1 : Cfg R := { s with tight := tight, clip := clip }          -- l.374-375 (written before the checks)
-    if off = true then
-      (({ s1 with useStrict := false, bnd := .ident } : Cfg R).finalize, false)   -- l.377-380
-    else
-      let mn := min.getD s.dmin
-      let mx := max.getD s.dmax
-      if anyGt mn mx = true then (s1, true)                            -- l.390-391
-      else if mn.length ≠ s.nDim then (s1, true)                       -- l.392-393
-      else (({ s1 with useStrict := true, smin := mn, smax := mx, bnd := mode } : Cfg R).finalize, false)
+def newRanges [LT R] [DecidableLT R] (nDim : Nat) (dmin dmax : List R) (cur : Ranges R) (off : Bool)
+    (min max : Option (List R)) (tight clip : Option Bool) : Ranges R :=
+  let mode : BndMode :=
+    match clip with
+    | none => if tight == some true then .symbolic else .ident         -- args = {symbolic: True} if tight else {}
+    | some c => .impose c                                              -- args = {symbolic: False, clip: clip}
+  match rangesRaise nDim dmin dmax off min max tight clip with
+  | 1 => cur
+  | 2 => { cur with tight := tight, clip := clip }                     -- l.374-375 (written before the checks)
+  | _ =>
+    if off = true then { cur with tight := tight, clip := clip, useStrict := false, bnd := .ident }  -- l.377-379
+    else { tight := tight, clip := clip, useStrict := true, smin := min.getD dmin, smax := max.getD dmax,
+           bnd := mode }                                               -- l.394-397
 
 /-- `SetEvaluationLimits(generations, evaluations, new)` l.615-637 -/
-def Cfg.setLimits (s : Cfg R) (g e : Option Nat) (new : Bool) : Cfg R :=
+def newLimits (gens fcalls : Nat) (g e : Option Nat) (new : Bool) : Limits :=
   if new = true then
-    { s with maxiter := (match g with | some n => .val (n + s.gens) | none => .star),
-             maxfun := (match e with | some n => .val (n + s.fcalls) | none => .star) }
+    { maxiter := (match g with | some n => .val (n + gens) | none => .star),
+      maxfun := (match e with | some n => .val (n + fcalls) | none => .star) }
   else
-    { s with maxiter := (match g with | some n => .val n | none => .none),
-             maxfun := (match e with | some n => .val n | none => .none) }
+    { maxiter := (match g with | some n => .val n | none => .none),
+      maxfun := (match e with | some n => .val n | none => .none) }
 
 /-- `random.uniform(a, b)` with the underlying `random()` value `r` -/
 def uniform [Add R] [Sub R] [Mul R] (r a b : R) : R := a + (b - a) * r
 
+/-- `SetRandomInitialPoints(min, max)` raises: bounds of the wrong length (l.517-518) -/
+def randomRaise (nDim : Nat) (dmin dmax : List R) (min max : Option (List R)) : Bool :=
+  decide ((min.getD dmin).length ≠ nDim ∨ (max.getD dmax).length ≠ nDim)
+
 /-- `SetRandomInitialPoints(min, max)` l.500-526: `population[i][j] = random.uniform(min[j], max[j])`, row by row -/
-def Cfg.setRandom [Add R] [Sub R] [Mul R] [OfNat R 0] (u : Nat → R) (s : Cfg R) (min max : Option (List R)) :
-    Cfg R × Bool :=
-  match s.kind with
-  | .ensemble => (s, true)                                             -- NotImplementedError("must be overwritten...")
-  | _ =>
-    let mn := min.getD s.dmin
-    let mx := max.getD s.dmax
-    if (mn.length ≠ s.nDim ∨ mx.length ≠ s.nDim) then (s, true)        -- l.517-518
-    else
-      let n := s.population.length
-      ({ s with population := (List.range n).map fun i => (List.range s.nDim).map fun j =>
-                                  uniform (u (s.rngPos + i * s.nDim + j)) (mn.getD j 0) (mx.getD j 0),
-                rngPos := s.rngPos + n * s.nDim }, false)
+def newPopRandom [Add R] [Sub R] [Mul R] [OfNat R 0] (u : Nat → R) (nDim : Nat) (dmin dmax : List R) (cur : Pop R)
+    (min max : Option (List R)) : Pop R :=
+  if randomRaise nDim dmin dmax min max = true then cur
+  else
+    let n := cur.population.length
+    { population := (List.range n).map fun i => (List.range nDim).map fun j =>
+                      uniform (u (cur.rngPos + i * nDim + j)) ((min.getD dmin).getD j 0) ((max.getD dmax).getD j 0),
+      rngPos := cur.rngPos + n * nDim }
 
 /-- `SetInitialPoints(x0, radius)` l.464-498 -/
-def Cfg.setInitial [Add R] [Sub R] [Mul R] [Neg R] [OfNat R 0] [OfNat R 1] [BEq R] (u : Nat → R) (s : Cfg R)
-    (x0 : List R) (radius : R) : Cfg R × Bool :=
-  match s.kind with
-  | .ensemble => (s, true)
-  | _ =>
-    if x0.length ≠ s.nDim then (s, true)                               -- l.482-483
-    else
-      let mn := (x0.map (fun x => x * (1 - radius))).map (fun v => if v == 0 then -radius else v)   -- l.492,494
-      let mx := (x0.map (fun x => x * (1 + radius))).map (fun v => if v == 0 then radius else v)    -- l.493,495
-      let r := s.setRandom u (some mn) (some mx)
-      ({ r.1 with population := r.1.population.set 0 x0 }, r.2)         -- l.498
+def newPopInitial [Add R] [Sub R] [Mul R] [Neg R] [OfNat R 0] [OfNat R 1] [BEq R] (u : Nat → R) (nDim : Nat)
+    (dmin dmax : List R) (cur : Pop R) (x0 : List R) (radius : R) : Pop R :=
+  if x0.length ≠ nDim then cur                                         -- l.482-483
+  else
+    let mn := (x0.map (fun x => x * (1 - radius))).map (fun v => if v == 0 then -radius else v)   -- l.492,494
+    let mx := (x0.map (fun x => x * (1 + radius))).map (fun v => if v == 0 then radius else v)    -- l.493,495
+    let r := newPopRandom u nDim dmin dmax cur (some mn) (some mx)
+    { r with population := r.population.set 0 x0 }                      -- l.498
 
-/-- one `Set*` call: the new configuration and whether the call raised -/
-def apply [Add R] [Sub R] [Mul R] [Neg R] [OfNat R 0] [OfNat R 1] [BEq R] [LT R] [DecidableLT R]
+/-- the body of one `Set*` method up to (not including) its trailing `_update_objective()`:
+    the new configuration and whether the call raised -/
+def own [Add R] [Sub R] [Mul R] [Neg R] [OfNat R 0] [OfNat R 1] [BEq R] [LT R] [DecidableLT R]
     (u : Nat → R) (s : Cfg R) : Op R → Cfg R × Bool
-  -- l.221-240  (`wrap_reducer` unless arraylike), then `_update_objective` = `Finalize`
-  | .setReducer f al => (({ s with reducer := f.map (fun i => (i, al)) } : Cfg R).finalize, false)
+  -- l.221-240  (`wrap_reducer` unless arraylike)
+  | .setReducer f al => ({ s with reducer := f.map (fun i => (i, al)) }, false)
   -- l.242-259
-  | .setPenalty p => (({ s with penalty := p } : Cfg R).finalize, false)
-  -- l.261-275 ; differential_evolution.py l.203-218 / l.447-462: no `_update_objective`
-  | .setConstraints c =>
-    if s.kind = .de then ({ s with constraints := c }, false)
-    else (({ s with constraints := c } : Cfg R).finalize, false)
-  | .setGenerationMonitor m new => (s.setGenMon m new, false)
-  | .setEvaluationMonitor m new => (s.setEvalMon m new, false)
-  | .setStrictRanges off mn mx tight clip => s.setStrictRanges off mn mx tight clip
-  | .setEvaluationLimits g e new => (s.setLimits g e new, false)
+  | .setPenalty p => ({ s with penalty := p }, false)
+  -- l.261-275 ; differential_evolution.py l.203-218 / l.447-462
+  | .setConstraints c => ({ s with constraints := c }, false)
+  -- l.277-301: the monitor, then `energy_history = None; solution_history = None`
+  | .setGenerationMonitor m new => ({ s with stepmon := newStepmon s.stepmon m new, hist := {} }, false)
+  -- l.303-325 (followed by `_update_objective()`, see `fin`)
+  | .setEvaluationMonitor m new => ({ s with evalmon := newEvalmon s.evalmon m new }, false)
+  | .setStrictRanges off mn mx tight clip =>
+    ({ s with ranges := newRanges s.nDim s.dmin s.dmax s.ranges off mn mx tight clip },
+     decide (rangesRaise s.nDim s.dmin s.dmax off mn mx tight clip ≠ 0))
+  | .setEvaluationLimits g e new => ({ s with limits := newLimits (gensOf s.kind s.stepmon s.hist) s.fcalls g e new }, false)
   -- l.716-737
-  | .setTermination t collapses => ({ s with termination := t, collapse := t.isSome && collapses }, false)
-  -- l.739-770 (ExtraArgs = None)
+  | .setTermination t collapses => ({ s with term := { termination := t, collapse := t.isSome && collapses } }, false)
+  -- l.739-770 (ExtraArgs = None): nothing happens when the cost is the stored one
   | .setObjective c =>
-    if s.costRaw = some c then (s, false)
-    else ({ s with costRaw := some c, decorated := false, live := false }, false)
+    ({ s with cost := (if s.cost.raw = some c then s.cost else { raw := some c, decorated := false }),
+              live := (if s.cost.raw = some c then s.live else false) }, false)
   -- l.601-613
-  | .setSaveFrequency g f => ({ s with saveiter := g, state := f }, false)
+  | .setSaveFrequency g f => ({ s with save := { saveiter := g, state := f } }, false)
   -- abstract_map_solver.py l.125-136
-  | .setMapper m c => ({ s with map := m, mapcfg := c }, false)
+  | .setMapper m c => ({ s with mapc := { map := m, mapcfg := c } }, false)
   -- l.581-599
   | .setSigint b => ({ s with sigint := b }, false)
-  | .setInitialPoints x0 radius => s.setInitial u x0 radius
-  | .setRandomInitialPoints mn mx => s.setRandom u mn mx
+  | .setInitialPoints x0 radius =>
+    ({ s with pop := newPopInitial u s.nDim s.dmin s.dmax s.pop x0 radius },
+     decide (x0.length ≠ s.nDim))
+  | .setRandomInitialPoints mn mx =>
+    ({ s with pop := newPopRandom u s.nDim s.dmin s.dmax s.pop mn mx }, randomRaise s.nDim s.dmin s.dmax mn mx)
+
+/-- does the call end in `_update_objective()` = `Finalize()` (l.883-890) ?  The DE solvers override
+    `SetConstraints` without it ("doesn't use wrap_nested") -/
+def fin (k : Kind) : Op R → Bool
+  | .setReducer .. => true
+  | .setPenalty .. => true
+  | .setStrictRanges .. => true
+  | .setEvaluationMonitor .. => true        -- since /repo 701fd45: "re-decorates the objective like the other Set*"
+  | .setConstraints .. => decide (k ≠ .de)
+  | _ => false
+
+/-- ensemble solvers: "*** this method must be overwritten ***" (abstract_ensemble_solver.py l.240-270) -/
+def blocked (k : Kind) : Op R → Bool
+  | .setInitialPoints .. => decide (k = .ensemble)
+  | .setRandomInitialPoints .. => decide (k = .ensemble)
+  | _ => false
+
+/-- one `Set*` call: the new configuration and whether the call raised (a call that raises never reaches its
+    `_update_objective()`) -/
+def apply [Add R] [Sub R] [Mul R] [Neg R] [OfNat R 0] [OfNat R 1] [BEq R] [LT R] [DecidableLT R]
+    (u : Nat → R) (s : Cfg R) (op : Op R) : Cfg R × Bool :=
+  if blocked s.kind op = true then (s, true)
+  else if (fin s.kind op && !(own u s op).2) = true then ((own u s op).1.finalize, (own u s op).2)
+  else own u s op
 
 /-- a whole configuration phase: the calls in the given order -/
 def cfgAfter [Add R] [Sub R] [Mul R] [Neg R] [OfNat R 0] [OfNat R 1] [BEq R] [LT R] [DecidableLT R]
@@ -249,17 +342,18 @@ def raisedAfter [Add R] [Sub R] [Mul R] [Neg R] [OfNat R 0] [OfNat R 1] [BEq R] 
 /-- random numbers consumed by a configuration phase -/
 def rngConsumed [Add R] [Sub R] [Mul R] [Neg R] [OfNat R 0] [OfNat R 1] [BEq R] [LT R] [DecidableLT R]
     (u : Nat → R) (s : Cfg R) (l : List (Op R)) : Nat :=
-  (cfgAfter u s l).rngPos - s.rngPos
+  (cfgAfter u s l).pop.rngPos - s.pop.rngPos
 
 /-! ### the footprint table -/
 
 /-- groups of attributes -/
 inductive Field where
   | reducer | penalty | constraints | termination | stepmon | evalmon | hist | ranges | limits | cost | live
-  | save | map | sigint | population | rng | fcalls
+  | save | map | sigint | population | fcalls
   deriving DecidableEq, Repr
 
-/-- attributes the call itself assigns (the trailing `Finalize` is accounted for by `fin`) -/
+/-- attributes the method body assigns (the trailing `Finalize` is accounted for by `fin`);
+    `population` stands for the population together with the state of the random source -/
 def writes : Op R → List Field
   | .setReducer .. => [.reducer]
   | .setPenalty .. => [.penalty]
@@ -273,26 +367,19 @@ def writes : Op R → List Field
   | .setSaveFrequency .. => [.save]
   | .setMapper .. => [.map]
   | .setSigint .. => [.sigint]
-  | .setInitialPoints .. => [.population, .rng]
-  | .setRandomInitialPoints .. => [.population, .rng]
+  | .setInitialPoints .. => [.population]
+  | .setRandomInitialPoints .. => [.population]
 
 /-- non-static attributes whose current value influences what the call does -/
 def reads : Op R → List Field
   | .setGenerationMonitor .. => [.stepmon]                    -- the current monitor is prepended
   | .setEvaluationMonitor .. => [.evalmon]
   | .setEvaluationLimits _ _ new => if new = true then [.stepmon, .hist, .fcalls] else []   -- the counters
-  | .setObjective .. => [.cost]
-  | .setInitialPoints .. => [.population, .rng]
-  | .setRandomInitialPoints .. => [.population, .rng]
+  | .setObjective .. => [.cost, .live]
+  | .setStrictRanges .. => [.ranges]                          -- a call that raises keeps (part of) the old ranges
+  | .setInitialPoints .. => [.population]                     -- population size, position in the random stream
+  | .setRandomInitialPoints .. => [.population]
   | _ => []
-
-/-- does the call end in `_update_objective()` = `Finalize()` ? -/
-def fin (k : Kind) : Op R → Bool
-  | .setReducer .. => true
-  | .setPenalty .. => true
-  | .setStrictRanges .. => true
-  | .setConstraints .. => decide (k ≠ .de)
-  | _ => false
 
 /-- random-number consumers -/
 def consumesRng : Op R → Bool
@@ -300,8 +387,9 @@ def consumesRng : Op R → Bool
   | .setRandomInitialPoints .. => true
   | _ => false
 
-/-- what `Finalize` touches: `_live`; on a live Powell solver also the step monitor and the history override -/
-def finFp (pl : Bool) : List Field := if pl = true then [.live, .stepmon, .hist] else [.live]
+/-- what `Finalize` touches: `_live`; on a live Powell solver also the step monitor, the history override and
+    the save settings (it may dump the solver and register a restart file) -/
+def finFp (pl : Bool) : List Field := if pl = true then [.live, .stepmon, .hist, .save] else [.live]
 
 def disj (a b : List Field) : Bool := a.all fun f => !b.contains f
 
